@@ -382,7 +382,17 @@ func (ex *Exec) stringToSlice(st *State, sv *StrV, t *types.Slice, p token.Pos) 
 	if b, ok := t.Elem().Underlying().(*types.Basic); ok && !sv.Concrete && (b.Kind() == types.Int32 || b.Kind() == types.Uint8) {
 		// arbitrary text: arbitrary length, arbitrary elements
 		ex.assumptions["[]rune(s)/[]byte(s) of an arbitrary string is an arbitrary slice (contents unconstrained; rune count <= byte count <= 4 * rune count)"] = true
-		sl := ex.newSymSlice(st, "runes", t.Elem())
+		// the conversion is a function of the string: two conversions of the same text agree
+		kind := "runes"
+		if b.Kind() == types.Uint8 {
+			kind = "bytes"
+		}
+		id := ex.strTerm(sv)
+		sl := &SymSliceV{Len: ex.ts.App("dep."+kind+".len", BVSort(64), id), Elem: t.Elem()}
+		ex.assume(st, ex.ts.BVCmp(OpBVSle, ex.ts.BV(0, 64), sl.Len))
+		for _, lf := range ex.elemLeaves(t.Elem()) {
+			sl.Arrs = append(sl.Arrs, ex.ts.App("dep."+kind+"."+lf.name, ArraySort(refSort, lf.sort), id))
+		}
 		bl := ex.strLen(sv)
 		if b.Kind() == types.Uint8 {
 			ex.assume(st, ex.ts.Eq(sl.Len, bl))
